@@ -435,3 +435,46 @@ func VH_C16_label_positions() {
 	}
 	zz.Reach("end")
 }
+
+// VH_C16_observe: an ungrouped observe between other operations, with its
+// buckets absent (invalid: the whole batch is rejected), present but empty
+// (valid: default buckets) or given: a batch is applied completely or not at all.
+func VH_C16_observe() {
+	m := NewMetricStorage(context.Background(), "p_", true, log.NewNop())
+	vhRec, vhRecOn = nil, true
+	common := map[string]string{"hook": "hookA"}
+	one := 1.0
+	obs := operation.MetricOperation{Name: "h1", Action: "observe", Value: &one, Labels: map[string]string{"l": "a"}}
+	shape := zz.Len("buckets", 0, 2)
+	switch shape {
+	case 1:
+		obs.Buckets = []float64{}
+	case 2:
+		obs.Buckets = []float64{1, 5}
+	}
+	batch := []operation.MetricOperation{
+		{Name: "m1", Group: "g1", Action: "set", Value: &one, Labels: map[string]string{"l": "a"}},
+		{Name: "m2", Action: "add", Value: &one, Labels: map[string]string{"l": "a"}},
+	}
+	pos := zz.Len("observe_position", 0, 2)
+	batch = append(batch[:pos], append([]operation.MetricOperation{obs}, batch[pos:]...)...)
+	batch = append(batch, operation.MetricOperation{Name: "m3", Action: "set", Value: &one, Labels: map[string]string{"l": "a"}})
+	err := m.SendBatch(batch, common)
+	grouped := len(vhDumpAll(m))
+	if shape == 0 {
+		zz.Assert(err != nil, "invalid_operation_fails_the_batch")
+		zz.Assert(len(vhRec) == 0 && grouped == 0, "invalid_batch_applies_nothing")
+	} else {
+		zz.Assert(err == nil, "valid_batch_is_applied")
+		zz.Assert(len(vhRec) == 3 && grouped == 1, "valid_batch_is_applied_completely")
+		seen := 0
+		for _, r := range vhRec {
+			if r.kind == "observe" && r.name == "h1" {
+				seen++
+			}
+		}
+		zz.Assert(seen == 1, "observe_is_applied_once")
+	}
+	vhRecOn = false
+	zz.Reach("end")
+}
